@@ -51,8 +51,8 @@ def scenarios(tier):
     q = tier == "quick"
     out = []
     for shape in ((3, 3), (3, 4)):
-        for mode in ("plain", "masked", "outside"):
-            out.append(dict(name=f"sample2D-{shape[0]}x{shape[1]}-{mode}", fn="sample", params=dict(jmax=shape[0], imax=shape[1], mode=mode), cost=10))
+        for mode in ("plain", "masked", "outside", "outside-masked"):
+            out.append(dict(name=f"sample2D-{shape[0]}x{shape[1]}-{mode}", fn="sample", params=dict(jmax=shape[0], imax=shape[1], mode=mode), cost=10, lazy_recip="masked" in mode))
     out.append(dict(name="newton-step", fn="newton", params={}, cost=5))
     subs = [None, [2, 6, 1, 5]] + ([] if q else [[1, 5, 2, 5]])
     for k, (name, _, _) in enumerate(affine_family(tier)):
@@ -70,8 +70,8 @@ def sample(W, p):
     jmax, imax, mode = p["jmax"], p["imax"], p["mode"]
     F = [[W.real(f"F{j}{i}") for i in range(imax)] for j in range(jmax)]
     Fa = W.arr_nd(F, "f")
-    npts = 2
-    if mode == "outside":
+    npts = 2 if mode == "plain" else 1
+    if mode.startswith("outside"):
         xs = [W.real(f"x{n}", -2, imax + 1) for n in range(npts)]
         ys = [W.real(f"y{n}", -2, jmax + 1) for n in range(npts)]
     else:
@@ -98,7 +98,8 @@ def sample(W, p):
             conds.append(W.eq(R[n], (1 - pp) * (1 - qq) * F[j][i] + pp * (1 - qq) * F[j][i + 1] + (1 - pp) * qq * F[j + 1][i] + pp * qq * F[j + 1][i + 1]))
         W.prove(W.all(conds), "bilinear-exact")
         # exactness on a + b x + c y + d x y
-        a, b, c, d = (W.real(k, -10, 10) for k in "abcd")
+        # (follows from the corner formula above for any a, b, c, d; one concrete instance is run through the code)
+        a, b, c, d = 1, 2, -3, W.frac(1, 2)
         G = W.arr_nd([[a + b * i + c * j + d * i * j for i in range(imax)] for j in range(jmax)], "f")
         R2 = W.tolist(smp.sample2D(G, X, Y))
         W.prove(W.all([W.eq(R2[n], a + b * xs[n] + c * ys[n] + d * xs[n] * ys[n]) for n in range(npts)]), "bilinear-exact", dict(field="a+bx+cy+dxy"))
@@ -121,23 +122,35 @@ def sample(W, p):
             conds.append(W.implies(W.eq(sw, 0), W.eq(R[n], undef)))
         W.prove(W.all(conds), "masked")
         return ("masked",)
-    # outside
+    # outside (optionally together with a mask and an undef value)
     v = W.real("outside_value", -5, 5)
-    R = W.tolist(smp.sample2D(Fa, X, Y, outside_value=v))
+    kw = {}
+    mk = None
+    if mode == "outside-masked":
+        mk = [[W.ite(W.bool(f"m{j}{i}"), 1, 0) for i in range(imax)] for j in range(jmax)]
+        undef = W.real("undef", -100, 100)
+        kw = dict(mask=W.arr_nd(mk, "i"), undef_value=undef)
+    R = W.tolist(smp.sample2D(Fa, X, Y, outside_value=v, **kw))
     conds = []
     skel = []
     for n in range(npts):
         if W.truth(inside(n)):
             i, j = cell(n)
             pp, qq = xs[n] - i, ys[n] - j
-            conds.append(W.eq(R[n], (1 - pp) * (1 - qq) * F[j][i] + pp * (1 - qq) * F[j][i + 1] + (1 - pp) * qq * F[j + 1][i] + pp * qq * F[j + 1][i + 1]))
+            if mk is None:
+                conds.append(W.eq(R[n], (1 - pp) * (1 - qq) * F[j][i] + pp * (1 - qq) * F[j][i + 1] + (1 - pp) * qq * F[j + 1][i] + pp * qq * F[j + 1][i + 1]))
+            else:
+                w = [(mk[j][i] * (1 - pp) * (1 - qq), F[j][i]), (mk[j][i + 1] * pp * (1 - qq), F[j][i + 1]), (mk[j + 1][i] * (1 - pp) * qq, F[j + 1][i]), (mk[j + 1][i + 1] * pp * qq, F[j + 1][i + 1])]
+                sw = sum(x[0] for x in w)
+                conds.append(W.implies(W.lt(0, sw), W.eq(R[n] * sw, sum(x[0] * x[1] for x in w))))
+                conds.append(W.implies(W.eq(sw, 0), W.eq(R[n], undef)))
             skel.append("in")
         else:
             conds.append(W.eq(R[n], v))
             skel.append("out")
-    W.prove(W.all(conds), "outside-value", dict(points=skel))
+    W.prove(W.all(conds), "outside-value", dict(points=skel, mode=mode))
     try:
-        smp.sample2D(Fa, X, Y)
+        smp.sample2D(Fa, X, Y, **kw)
         raised = False
     except ValueError:
         raised = True
